@@ -598,7 +598,8 @@ async fn exec<const N: usize>(st: &mut St<N>, ctx: &mut Ctx, toks: &[&str]) {
         ("fail", [kind, pat, nth, action]) => {
             use pearl::verif_io::{self, Action, Kind};
             let k = match *kind { "create" => Kind::Create, "open" => Kind::Open, "append" => Kind::Append, "writeat" => Kind::WriteAt, "sync" => Kind::Sync, _ => panic!("kind") };
-            let a = if let Some(n) = action.strip_prefix("short:") { Action::Short(n.parse().unwrap()) } else {
+            let a = if let Some(n) = action.strip_prefix("short:") { Action::Short(n.parse().unwrap()) }
+                else if let Some(ms) = action.strip_prefix("delay:") { Action::Delay(ms.parse().unwrap()) } else {
                 Action::Fail(match *action { "ENOSPC" => libc::ENOSPC, "EIO" => libc::EIO, "EACCES" => libc::EACCES, x => x.parse().unwrap() }) };
             verif_io::arm(k, pat, nth.parse().unwrap(), a);
             ctx.emit("fail armed");
@@ -661,6 +662,58 @@ async fn exec<const N: usize>(st: &mut St<N>, ctx: &mut Ctx, toks: &[&str]) {
                 _ => "HARNESS-ERROR bad tool command".into(),
             };
             ctx.emit(format!("tool {} {}", sub, r));
+        }
+
+        ("cancel", [polls, op, rest @ ..]) => {
+            // poll the operation's future `polls` times (5 ms apart, so that blocking closures can finish),
+            // then drop it; a future that completes earlier reports its result
+            let polls: usize = polls.parse().unwrap();
+            let s = need_storage!(st, ctx, "cancel");
+            macro_rules! drive {
+                ($fut:expr, $fmt:expr) => {{
+                    let mut fut = Box::pin($fut);
+                    let mut done = None;
+                    for _ in 0..polls {
+                        match futures::poll!(fut.as_mut()) {
+                            std::task::Poll::Ready(r) => { done = Some(r); break; }
+                            std::task::Poll::Pending => tokio::time::sleep(Duration::from_millis(5)).await,
+                        }
+                    }
+                    match done {
+                        Some(r) => format!("cancel done {}", $fmt(r)),
+                        None => { drop(fut); "cancel dropped".to_string() }
+                    }
+                }};
+            }
+            let line = match (*op, rest) {
+                ("W", [key, ts, meta, len, seed]) => {
+                    let len: usize = len.parse().unwrap();
+                    let seed: u64 = seed.parse().unwrap();
+                    let data = gen_data(seed, len);
+                    st.written.insert((len, crc32c(&data)), seed);
+                    let k = key_of::<N>(key);
+                    let t = BlobRecordTimestamp::new(ts.parse().unwrap());
+                    let _ = meta;
+                    drive!(s.write(k, Bytes::from(data), t), |r: anyhow::Result<()>| match r { Ok(()) => "W ok".to_string(), Err(e) => format!("W Err {}", err_class(&e)) })
+                }
+                ("D", [key, ts, _meta, oip]) => {
+                    let k = key_of::<N>(key);
+                    let t = BlobRecordTimestamp::new(ts.parse().unwrap());
+                    drive!(s.delete(k, t, *oip == "1"), |r: anyhow::Result<u64>| match r { Ok(n) => format!("D {}", n), Err(e) => format!("D Err {}", err_class(&e)) })
+                }
+                ("R", [key]) => {
+                    let k = key_of::<N>(key);
+                    drive!(s.read(k), |r: anyhow::Result<ReadResult<Bytes>>| match r { Ok(_) => "R ok".to_string(), Err(e) => format!("R Err {}", err_class(&e)) })
+                }
+                ("close_active", []) => drive!(s.try_close_active_blob(), |r: anyhow::Result<()>| match r { Ok(()) => "close_active ok".to_string(), Err(e) => format!("close_active Err {}", err_class(&e)) }),
+                ("create_active", []) => drive!(s.try_create_active_blob(), |r: anyhow::Result<()>| match r { Ok(()) => "create_active ok".to_string(), Err(e) => format!("create_active Err {}", err_class(&e)) }),
+                ("restore_active", []) => drive!(s.try_restore_active_blob(), |r: anyhow::Result<()>| match r { Ok(()) => "restore_active ok".to_string(), Err(e) => format!("restore_active Err {}", err_class(&e)) }),
+                ("fsync", []) => drive!(s.fsyncdata(), |r: std::io::Result<()>| match r { Ok(()) => "fsync ok".to_string(), Err(_) => "fsync Err".to_string() }),
+                _ => "HARNESS-ERROR bad cancel op".to_string(),
+            };
+            // let detached blocking closures of the dropped future finish (failpoint delays are <= 60 ms)
+            tokio::time::sleep(Duration::from_millis(130)).await;
+            ctx.emit(line);
         }
         ("bloom", _) => crate::bloom_cmds::cmd_bloom(ctx, a).await,
         ("hier", _) => crate::hier_cmds::cmd_hier::<N>(ctx, a).await,
